@@ -70,6 +70,7 @@ class MafWriter(object):
                 sort_order_name=self._header.sort_order().name(),  # type: ignore
                 scheme=self._scheme,
                 contigs=self._header.contigs(),
+                validation_stringency=self.validation_stringency,
             )
 
     def header(self) -> MafHeader:
